@@ -343,10 +343,10 @@ def walk(dispatcher, node, definition=None):
             # chunks from the stack that didn't get normalized, and
             # generate a new layout rule chunk.
             lrcs_stack[:] = lrcs_stack[:idx]
-            lrcs_stack.append(LayoutChunk(
-                rule, handler,
-                layout_rule_chunks[idx].node,
-            ))
+            # the handler is for the last rule of the normalized group
+            # (e.g. the EndStatement of `Space, EndStatement`), so it is
+            # that rule's node which provides the source position.
+            lrcs_stack.append(LayoutChunk(rule, handler, lrc.node))
 
         # second pass: now the processing can be done.
         for lr_chunk in lrcs_stack:
